@@ -1,6 +1,7 @@
 package props
 
 import (
+	"go/token"
 	"fmt"
 	"go/ast"
 	"go/types"
@@ -28,6 +29,53 @@ func checkC18(c *core.Ctx) {
 	c18Pool(c)
 	c.Rule(rC18UF, "the union-find substitution, evaluated from source: extending a substitution (UnifyTermsExtend) leaves the base it was given untouched - no entry added, none rewritten by path compression - because sibling solutions (and goroutines evaluating in parallel from one base) read it at the same time; the remaining laws of the structure are evaluated along with it", 4)
 	unionFindLaws(c, rC18UF)
+}
+
+// lockWrappers summarises the methods of ConcurrentFactStore (other than the store operations) that take the
+// store's mutex and return a function value: "W" for Lock, "R" for RLock. Keyed by resolved method name.
+var lockWrapperCache = map[*core.Ctx]map[string]string{}
+
+func lockWrappers(c *core.Ctx) map[string]string {
+	if m, ok := lockWrapperCache[c]; ok {
+		return m
+	}
+	m := map[string]string{}
+	lockWrapperCache[c] = m
+	for _, f := range c.Prog.AllFuncs("factstore") {
+		if f.Decl.Recv == nil || f.Obj == nil || !strings.Contains(f.Name, "ConcurrentFactStore") {
+			continue
+		}
+		sig := f.Obj.Type().(*types.Signature)
+		if sig.Results().Len() != 1 {
+			continue
+		}
+		if _, isFn := sig.Results().At(0).Type().Underlying().(*types.Signature); !isFn {
+			continue
+		}
+		info := f.Pkg.TypesInfo
+		kind, releases := "", false
+		ast.Inspect(f.Decl.Body, func(n ast.Node) bool {
+			sel, ok := n.(*ast.SelectorExpr)
+			if !ok || core.FieldSel(info, sel.X) != "ConcurrentFactStore.mutex" {
+				return true
+			}
+			switch sel.Sel.Name {
+			case "Lock":
+				kind = "W"
+			case "RLock":
+				if kind == "" {
+					kind = "R"
+				}
+			case "Unlock", "RUnlock":
+				releases = true
+			}
+			return true
+		})
+		if kind != "" && releases {
+			m[core.ObjName(f.Obj)] = kind
+		}
+	}
+	return m
 }
 
 func c18Locks(c *core.Ctx) {
@@ -61,11 +109,72 @@ func c18Locks(c *core.Ctx) {
 			return found
 		}
 		notDefer := func(n ast.Node) bool { _, d := n.(*ast.DeferStmt); return !d }
-		acquireW := func(n ast.Node) bool { return notDefer(n) && isMutexCall(n, "Lock") }
-		acquireR := func(n ast.Node) bool { return notDefer(n) && isMutexCall(n, "RLock") }
+		// lock wrappers: a method of the store that takes the mutex and returns the function releasing it
+		// (`defer s.writeLocked()()` or `unlock := s.writeLocked(); defer unlock()`); summarised from its body
+		wrapperCall := func(n ast.Node, kind string) bool {
+			found := false
+			core.Walk(n, false, func(x ast.Node) bool {
+				call, ok := x.(*ast.CallExpr)
+				if !ok {
+					return true
+				}
+				if fn, _ := core.Callee(info, call).(*types.Func); fn != nil && lockWrappers(c)[core.ObjName(fn)] == kind {
+					found = true
+				}
+				return true
+			})
+			return found
+		}
+		deferOfWrapper := func(n ast.Node) bool {
+			d, ok := n.(*ast.DeferStmt)
+			if !ok {
+				return false
+			}
+			inner, ok := ast.Unparen(d.Call.Fun).(*ast.CallExpr)
+			return ok && (wrapperCall(inner, "W") || wrapperCall(inner, "R"))
+		}
+		deferOfUnlockVar := func(n ast.Node) bool {
+			d, ok := n.(*ast.DeferStmt)
+			if !ok {
+				return false
+			}
+			id, ok := ast.Unparen(d.Call.Fun).(*ast.Ident)
+			if !ok {
+				return false
+			}
+			fromWrapper := false
+			ast.Inspect(f.Decl.Body, func(m ast.Node) bool {
+				as, ok := m.(*ast.AssignStmt)
+				if !ok || len(as.Lhs) != 1 || len(as.Rhs) != 1 {
+					return true
+				}
+				if l, ok := as.Lhs[0].(*ast.Ident); ok && info.ObjectOf(l) == info.ObjectOf(id) && (wrapperCall(as.Rhs[0], "W") || wrapperCall(as.Rhs[0], "R")) {
+					fromWrapper = true
+				}
+				return true
+			})
+			return fromWrapper
+		}
+		acquireW := func(n ast.Node) bool {
+			if d, ok := n.(*ast.DeferStmt); ok {
+				inner, isCall := ast.Unparen(d.Call.Fun).(*ast.CallExpr)
+				return isCall && wrapperCall(inner, "W")
+			}
+			return isMutexCall(n, "Lock") || wrapperCall(n, "W")
+		}
+		acquireR := func(n ast.Node) bool {
+			if d, ok := n.(*ast.DeferStmt); ok {
+				inner, isCall := ast.Unparen(d.Call.Fun).(*ast.CallExpr)
+				return isCall && wrapperCall(inner, "R")
+			}
+			return isMutexCall(n, "RLock") || wrapperCall(n, "R")
+		}
 		acquire := func(n ast.Node) bool { return acquireW(n) || acquireR(n) }
 		release := func(n ast.Node) bool { return notDefer(n) && isMutexCall(n, "Unlock", "RUnlock") }
-		deferRelease := func(n ast.Node) bool { _, d := n.(*ast.DeferStmt); return d && isMutexCall(n, "Unlock", "RUnlock") }
+		deferRelease := func(n ast.Node) bool {
+			_, d := n.(*ast.DeferStmt)
+			return d && (isMutexCall(n, "Unlock", "RUnlock") || deferOfWrapper(n) || deferOfUnlockVar(n))
+		}
 		usesBase := func(n ast.Node) bool { return core.MentionsField(info, n, true, "ConcurrentFactStore.base") }
 		isRet := func(n ast.Node) bool { _, ok := n.(*ast.ReturnStmt); return ok }
 		var problems []string
@@ -91,6 +200,10 @@ func c18Locks(c *core.Ctx) {
 		// 4. released on every exit
 		hasDefer := false
 		for _, a := range acqs {
+			if deferRelease(a.Node()) {
+				hasDefer = true // `defer s.locked()()`: taken now, released by the same deferred call on every exit
+				continue
+			}
 			// a deferred release directly guarded by the acquire: every path from the acquire reaches the defer before anything else leaves
 			if _, bad := g.Reach([]core.Ref{a}, isRet, func(n ast.Node) bool { return deferRelease(n) || release(n) }, true); bad {
 				problems = append(problems, "a return is reachable with the mutex still held")
@@ -145,8 +258,34 @@ func c18Locks(c *core.Ctx) {
 	}
 	// the mutex is only used by these methods and the constructor creates a fresh one
 	if f := c.MustFunc(rC18Lock, "factstore", "NewConcurrentFactStore"); f != nil {
-		src := core.SrcFull(c.Prog.Fset, f.Decl.Body)
-		c.Check(strings.Contains(src, "&sync.RWMutex{}"), rC18Lock, f.Name, f.Decl.Pos(), "each concurrent store has its own mutex", "NewConcurrentFactStore does not create a fresh sync.RWMutex for the new store")
+		// the store's mutex field is a value, or the constructor allocates one (&sync.RWMutex{} / new(sync.RWMutex))
+		fresh := false
+		if n := c.Prog.Named("factstore", "ConcurrentFactStore"); n != nil {
+			if st, ok := n.Underlying().(*types.Struct); ok {
+				for i := 0; i < st.NumFields(); i++ {
+					if st.Field(i).Name() == "mutex" {
+						if _, isPtr := st.Field(i).Type().(*types.Pointer); !isPtr {
+							fresh = true
+						}
+					}
+				}
+			}
+		}
+		info := f.Pkg.TypesInfo
+		ast.Inspect(f.Decl.Body, func(n ast.Node) bool {
+			switch x := n.(type) {
+			case *ast.UnaryExpr:
+				if cl, ok := x.X.(*ast.CompositeLit); ok && x.Op == token.AND && core.TypeName(info.TypeOf(cl)) == "sync.RWMutex" {
+					fresh = true
+				}
+			case *ast.CallExpr:
+				if id, ok := x.Fun.(*ast.Ident); ok && id.Name == "new" && len(x.Args) == 1 && core.TypeName(info.TypeOf(x.Args[0])) == "sync.RWMutex" {
+					fresh = true
+				}
+			}
+			return true
+		})
+		c.Check(fresh, rC18Lock, f.Name, f.Decl.Pos(), "each concurrent store has its own mutex", "NewConcurrentFactStore does not create a fresh sync.RWMutex for the new store")
 	}
 }
 
